@@ -528,7 +528,7 @@ func exec(line string) (res string) {
 			return "bad-op"
 		}
 		return execSingle(line, w)
-	case "pow":
+	case "pow", "powf":
 		return execPow(line, w)
 	}
 	return "bad-op"
@@ -720,7 +720,7 @@ func main() {
 		out.Case(line, nontrivial)
 		kind := strings.Fields(line)[0]
 		switch kind {
-		case "tdacc", "xpacc", "single", "pow":
+		case "tdacc", "xpacc", "single", "pow", "powf":
 			out.Count(kind + ":" + r)
 		default:
 			out.Count(kind)
@@ -1036,6 +1036,18 @@ func main() {
 		line := genPow(rng)
 		r := run(line, true)
 		if i < 2 {
+			out.Sample(map[string]string{"op": line, "impl": r})
+		}
+	}
+	// 7. pow candidates on forked histories (side branches with their own timestamps; either branch is the main chain)
+	forkCases := 6000
+	if thorough {
+		forkCases = 120000
+	}
+	for i := 0; i < forkCases; i++ {
+		line := genPowFork(rng)
+		r := run(line, true)
+		if i < 1 {
 			out.Sample(map[string]string{"op": line, "impl": r})
 		}
 	}
